@@ -6,13 +6,18 @@
 ID=$1; PROP=$2; TIER=${3:-quick}
 D=/verif/.work/seedov/$ID; rm -rf $D; mkdir -p $D/base $D/tree
 BASE=$(python3 -c "import json;print(json.load(open('/verif/seeded/$ID/meta.json')).get('base_commit','49b9765'))" 2>/dev/null || echo 49b9765)
-FILES=$(grep '^+++ b/' /verif/seeded/$ID/patch.diff | sed 's#^+++ b/##')
+PATCH=/verif/seeded/$ID/patch.diff
+if [ -f /verif/seeded/$ID/patch.current.diff ]; then
+  # the seed re-expressed against the current tree (its original patch no longer merges meaningfully after later fix: commits)
+  PATCH=/verif/seeded/$ID/patch.current.diff; BASE=HEAD
+fi
+FILES=$(grep '^+++ b/' $PATCH | sed 's#^+++ b/##')
 for f in $FILES; do
   mkdir -p $D/base/$(dirname $f) $D/tree/$(dirname $f)
   git -C /repo show $BASE:$f > $D/base/$f || exit 2
   cp $D/base/$f $D/tree/$f
 done
-(cd $D/tree && patch -s -p1 < /verif/seeded/$ID/patch.diff) || exit 2
+(cd $D/tree && patch -s -p1 < $PATCH) || exit 2
 for f in $FILES; do
   cp /repo/$f $D/cur.tmp
   if git merge-file -p $D/cur.tmp $D/base/$f $D/tree/$f > $D/merged.tmp 2>/dev/null; then cp $D/merged.tmp $D/tree/$f; else echo "merge conflict in $f: using base+seed"; fi
